@@ -50,7 +50,8 @@ def TSeq(e): return Ty('seq', e)
 def TFSet(e): return Ty('fset', e)      # immutable collection value supporting only `in` (tuple/list/frozenset constants)
 
 
-_ATOMS = {'int': INT, 'bool': BOOL, 'str': STR, 'None': NONE, 'none': NONE, 'any': ANY, 'text': TEXT}
+SIZED = Ty('sized')     # immutable collection of which only the length is observed (e.g. Rule.expansion)
+_ATOMS = {'sized': SIZED, 'int': INT, 'bool': BOOL, 'str': STR, 'None': NONE, 'none': NONE, 'any': ANY, 'text': TEXT}
 
 
 def parse_type(s):
@@ -87,7 +88,7 @@ def sort_of(t):
     if t in _sort_cache:
         return _sort_cache[t]
     k = t.kind
-    if k == 'int': s = z3.IntSort()
+    if k in ('int', 'sized'): s = z3.IntSort()
     elif k == 'bool': s = z3.BoolSort()
     elif k == 'str': s = z3.StringSort()
     elif k == 'none': s = NoneS
